@@ -957,7 +957,7 @@ def register_all(M):
     M.add(r"Vec::<.*>::len|core::slice::<impl \[.*\]>::len", lambda c, m, a: usize(len(as_items(a[0]))))
     M.add(r"Vec::<.*>::is_empty|core::slice::<impl \[.*\]>::is_empty", lambda c, m, a: SBool(len(as_items(a[0])) == 0))
     M.add(r"<Vec<.*> as Deref>::deref|Vec::<.*>::as_slice|<Vec<.*> as AsRef<\[.*\]>>::as_ref", lambda c, m, a: Slice(as_items(a[0])))
-    M.add(r"<\[.*\] as ToOwned>::to_owned|core::slice::<impl \[.*\]>::to_vec|<Vec<.*> as Clone>::clone|<Vec<.*> as From<&\[.*\]>>::from|<&\[.*\] as Into<Vec<.*>>>::into",
+    M.add(r"<\[.*\] as ToOwned>::to_owned|<Vec<.*> as ToOwned>::to_owned|core::slice::<impl \[.*\]>::to_vec|<Vec<.*> as Clone>::clone|<Vec<.*> as From<&\[.*\]>>::from|<&\[.*\] as Into<Vec<.*>>>::into",
           lambda c, m, a: VecBuf([deep_clone(x) for x in as_items(a[0])]))
     M.add(r"core::slice::<impl \[.*\]>::into_vec::<.*>", lambda c, m, a: VecBuf(as_items(deref_box(a[0]))))
 
